@@ -377,6 +377,14 @@ def gen_op(rng, st):
                 st.prologue.append({'op': 'mkfile', 'fid': st.gfid, 'kind': kind,
                                     'spec': spec, 'name': name, 'variant': v})
                 st.gfid += 1
+            if kind == 'uamiv' and len(spec.get('species', [])) > 1 and rng.random() < 0.6:
+                # a second gridded file on the same grid with the same species in
+                # another order (another run's output)
+                twin = dict(spec, species=spec['species'][1:] + spec['species'][:1])
+                st.prologue.append({'op': 'mkfile', 'fid': st.gfid, 'kind': kind, 'spec': twin,
+                                    'name': 'f%d%s' % (st.gfid, rng.choice(['.uamiv', '', '.avrg'])),
+                                    'variant': 'conv'})
+                st.gfid += 1
     if st.prologue:
         return st.prologue.pop(0)
     if st.pending:
@@ -406,7 +414,12 @@ def gen_op(rng, st):
             op['fmt'] = KINDS[kind][1] or rng.choice(['humidity', 'one3d', 'vertical_diffusivity'])
         if how == 'wrongfmt':
             op['fmt'] = rng.choice(['uamiv', 'netcdf', 'ffi1001', 'csv', 'humidity', 'ioapi'])
-        if how in ('explicit', 'wrongfmt') and rng.random() < 0.4:
+        if how == 'explicit' and kind in ('one3d', 'temperature', 'wind', 'height_pressure',
+                                         'cloud_rain', 'landuse') and \
+                st.files[fid].get('grid', (None, None))[0] and rng.random() < 0.5:
+            # the documented way to open the headerless formats: grid given
+            op['kw'] = {'rows': st.files[fid]['grid'][0], 'cols': st.files[fid]['grid'][1]}
+        elif how in ('explicit', 'wrongfmt') and rng.random() < 0.4:
             # valid reader keywords (a little-endian open, grid hints, projection)
             op['kw'] = rng.choice([{'endian': 'little'}, {'endian': 'big'},
                                    {'rows': 2, 'cols': 3}, {'mode': 'r'},
@@ -487,7 +500,9 @@ def apply(st, op):
         _write(op['kind'], op['spec'], path)
         seams.stamp_file(path)
         st.files[op['fid']] = {'kind': op['kind'], 'path': path,
-                               'variant': op['variant'], 'name': op['name']}
+                               'variant': op['variant'], 'name': op['name'],
+                               'grid': (op['spec'].get('ny'), op['spec'].get('nx'))
+                               if isinstance(op['spec'], dict) else (None, None)}
     elif o == 'hopen':
         f = st.files.get(op['fid'])
         if f is None:
